@@ -219,6 +219,59 @@ func runC14(c *an.Ctx) {
 				"the clean-up is not given the generation counter read under the lock at decision time")
 		}
 	}
+	// ---- R2c: who may delete from an index map
+	for _, fn := range c.FnsMatching("profiledb.") {
+		if c.IsTestFile(fn.Pos()) || goTargets[fn] != nil {
+			continue
+		}
+		for _, call := range an.Calls(fn) {
+			if an.CalleeName(call) != "builtin.delete" || len(call.Common().Args) != 2 {
+				continue
+			}
+			ld, ok := call.Common().Args[0].(*ssa.UnOp)
+			if !ok {
+				continue
+			}
+			mapName, isMap := isDBField(ld.X, c14Maps)
+			if !isMap {
+				continue
+			}
+			c.Analysed(an.FnKey(fn))
+			key := an.FnKey(fn) + " deletes from " + mapName
+			// accepted outside a clean-up only when the entry is checked to still
+			// belong to the object being replaced: m[k] == id on the path to the delete
+			owned := false
+			k := call.Common().Args[1]
+			for _, e := range an.DominatingConds(call.Block()) {
+				b, isBin := e.If.Cond.(*ssa.BinOp)
+				if !isBin || (b.Op != token.EQL && b.Op != token.NEQ) || (b.Op == token.EQL) != e.Branch {
+					continue
+				}
+				for _, side := range []ssa.Value{b.X, b.Y} {
+					var lk *ssa.Lookup
+					switch x := side.(type) {
+					case *ssa.Lookup:
+						lk = x
+					case *ssa.Extract:
+						lk, _ = x.Tuple.(*ssa.Lookup)
+					}
+					if lk == nil {
+						continue
+					}
+					if ld2, ok := lk.X.(*ssa.UnOp); ok {
+						if n2, isMap2 := isDBField(ld2.X, c14Maps); isMap2 && n2 == mapName && sameValue(lk.Index, k) {
+							owned = true
+						}
+					}
+				}
+			}
+			if owned {
+				c.Ok("C14-R2", key, call.Pos(), "the entry is deleted only after checking that it still maps to the expected owner")
+			} else {
+				c.Bad("C14-R2", key, call.Pos(), "an index entry is deleted outside the generation-checked clean-ups and without checking who owns the key now: the entry of the key's current owner can be removed")
+			}
+		}
+	}
 	// ---- R2b: inserts bump the generation
 	for _, fn := range c.FnsMatching("profiledb.(*Default).") {
 		if c.IsTestFile(fn.Pos()) {
@@ -520,6 +573,8 @@ func c14Cache(c *an.Ctx) {
 		c.Check(writes == 1 && bad == "", "C14-R5", st+"Store", fn.Pos(), "the cache file is written by one renameio.WriteFile (atomic replace)",
 			"the cache file is not written exclusively through renameio.WriteFile "+bad)
 	}
+	sharedFileMutators(c, "C14-R5", "profiledb")
+	c14CodecNames(c, "C14-R6", nil, 60)
 	decide(c, "C14-R5", st+"Load", an.DecideCfg{
 		Dom: an.Domain{"readerr": an.Strs("nil", "notexist", "other"), "unmarshalerr": an.Bools, "(fc.Version == ver)": an.Bools},
 		OnCall: func(it *an.Interp, name string, args []an.AV) (an.AV, bool) {
@@ -766,4 +821,44 @@ func c14Aliasing(c *an.Ctx, fn *ssa.Function) {
 				"each iteration appends a view of the same buffer (allocated at %s outside the loop): all encoded elements alias the last value", c.Pos(buf.Pos()))
 		}
 	}
+}
+
+// sameValue reports whether two SSA values denote the same value: identical, or
+// loads / field reads with the same access path.
+func sameValue(a, b ssa.Value) bool {
+	if a == b {
+		return true
+	}
+	pa, ok1 := an.AccessPath(a)
+	pb, ok2 := an.AccessPath(b)
+	return ok1 && ok2 && pa == pb
+}
+
+// c14CodecNames runs the name-agreement rule over the file-cache codec and the
+// backend profile conversion.
+func c14CodecNames(c *an.Ctx, rule string, fields func(dst, src string) bool, min int) {
+	sharedCodecNames(c, rule, func(fn *ssa.Function) bool {
+		k := an.FnKey(fn)
+		if strings.HasPrefix(k, "profiledb/internal/filecachepb.") {
+			return !strings.HasSuffix(c.Pos(fn.Pos()), ".pb.go") && !strings.Contains(c.Pos(fn.Pos()), ".pb.go:")
+		}
+		return strings.HasPrefix(k, "backendpb.") && !strings.Contains(c.Pos(fn.Pos()), ".pb.go:")
+	}, fields, map[string]string{
+		"filter/internal.ConfigCustom.ID <- backendpb.DNSProfile.DnsId":                                             "the custom filter is identified by its profile's DNS ID",
+		"filter.ConfigParental.AdultBlockingEnabled <- backendpb.ParentalSettings.BlockAdult":                       "backend spelling of the adult-blocking switch",
+		"filter.ConfigParental.SafeSearchGeneralEnabled <- backendpb.ParentalSettings.GeneralSafeSearch":            "backend spelling of general safe search",
+		"filter.ConfigParental.SafeSearchYouTubeEnabled <- backendpb.ParentalSettings.YoutubeSafeSearch":            "backend spelling of YouTube safe search",
+		"filter.ConfigSafeBrowsing.DangerousDomainsEnabled <- backendpb.SafeBrowsingSettings.BlockDangerousDomains": "backend spelling of the dangerous-domains switch",
+		"filter.ConfigSafeBrowsing.NewlyRegisteredDomainsEnabled <- backendpb.SafeBrowsingSettings.BlockNrd":        "NRD = newly registered domains",
+		"backendpb.CreateDeviceRequest.DnsId <- profiledb.StorageCreateAutoDeviceRequest.ProfileID":                 "the backend calls the profile ID the DNS ID",
+		"backendpb.ProfileStorage.maxProfSize <- backendpb.ProfileStorageConfig.MaxProfilesSize":                    "abbreviated private field",
+		"backendpb.ProfileStorage.respSzEst <- backendpb.ProfileStorageConfig.ResponseSizeEstimate":                 "abbreviated private field",
+		"backendpb.DeviceBillingStat.ClientCountry <- billstat.Record.Country":                                      "backend spelling",
+		"agd.Device.ID <- profiledb/internal/filecachepb.Device.DeviceId":                                           "cache spelling of the device ID",
+		"agd.Device.Name <- profiledb/internal/filecachepb.Device.DeviceName":                                       "cache spelling of the device name",
+		"agd.Profile.ID <- profiledb/internal/filecachepb.Profile.ProfileId":                                        "cache spelling of the profile ID",
+		"profiledb/internal/filecachepb.Device.DeviceId <- agd.Device.ID":                                           "cache spelling of the device ID",
+		"profiledb/internal/filecachepb.Device.DeviceName <- agd.Device.Name":                                       "cache spelling of the device name",
+		"profiledb/internal/filecachepb.Profile.ProfileId <- agd.Profile.ID":                                        "cache spelling of the profile ID",
+	}, min)
 }
